@@ -177,14 +177,7 @@ func (s *Lua) ExecMulti(ctx context.Context, c Client, multi ...LuaExec) (resp [
 				}
 			}
 		})
-		if err := e.Load(); err != nil {
-			resp = make([]RedisResult, len(multi))
-			for i := 0; i < len(resp); i++ {
-				resp[i] = NewErrorResult(err.(*errs).error)
-			}
-			return
-		}
-		// Set SHA-1 from Redis if sha1 loading is enabled.
+		// Set SHA-1 from Redis if sha1 loading is enabled (also when another node failed: the SHA is known now).
 		if s.loadSha1 {
 			if sha := sha1Result.Load(); sha != nil {
 				s.sha1Mu.Lock()
@@ -193,6 +186,13 @@ func (s *Lua) ExecMulti(ctx context.Context, c Client, multi ...LuaExec) (resp [
 				}
 				s.sha1Mu.Unlock()
 			}
+		}
+		if err := e.Load(); err != nil {
+			resp = make([]RedisResult, len(multi))
+			for i := 0; i < len(resp); i++ {
+				resp[i] = NewErrorResult(err.(*errs).error)
+			}
+			return
 		}
 	}
 
